@@ -1,13 +1,24 @@
 #!/bin/bash
-# usage: seed_run.sh <patch.diff> <property> [tier]   -- applies the change to /repo, runs the check, reverts.
+# usage: seed_run.sh <patch.diff> <property> [tier]
+# Applies the change to a scratch worktree of /repo's HEAD (VERIF_REPO redirects the check there, /repo itself
+# is not touched, so background runs are not disturbed), runs the check, removes the worktree.
+# SEED_IN_PLACE=1 applies it to /repo itself instead (git apply ... ; check ; git checkout -- .).
 patch="$1"; prop="$2"; tier="${3:-quick}"
 cd /verif
-git -C /repo apply "$patch" || { echo "patch does not apply"; exit 2; }
-./check.sh "$prop" "$tier" > /tmp/seedrun.$$.log 2>&1
-rc=$?
-git -C /repo checkout -- . 
-echo "patch=$patch property=$prop tier=$tier exit=$rc violations=$(grep -c '^VIOLATION' /tmp/seedrun.$$.log) known=$(grep -c '^KNOWN-FINDING' /tmp/seedrun.$$.log) engine=$(grep -c '^ENGINE-ERROR' /tmp/seedrun.$$.log)"
-grep -A1 '^VIOLATION' /tmp/seedrun.$$.log | grep fingerprint | head -8
-grep '^ENGINE-ERROR' /tmp/seedrun.$$.log | head -3 | cut -c1-300
-rm -f /tmp/seedrun.$$.log
+log=/tmp/seedrun.$$.log
+if [ -n "$SEED_IN_PLACE" ]; then
+  git -C /repo apply "$patch" || { echo "patch does not apply"; exit 2; }
+  ./check.sh "$prop" "$tier" > $log 2>&1; rc=$?
+  git -C /repo checkout -- .
+else
+  wt=/tmp/wt/seedrun-$$
+  git -C /repo worktree add -q "$wt" HEAD || exit 2
+  ( cd "$wt" && git apply "$patch" ) || { echo "patch does not apply"; git -C /repo worktree remove --force "$wt"; exit 2; }
+  VERIF_REPO="$wt" ./check.sh "$prop" "$tier" > $log 2>&1; rc=$?
+  git -C /repo worktree remove --force "$wt"
+fi
+echo "patch=$patch property=$prop tier=$tier exit=$rc violations=$(grep -c '^VIOLATION' $log) known=$(grep -c '^KNOWN-FINDING' $log) engine=$(grep -c '^ENGINE-ERROR' $log)"
+grep -A1 '^VIOLATION' $log | grep fingerprint | head -8
+grep '^ENGINE-ERROR' $log | head -3 | cut -c1-300
+rm -f $log
 [ -z "$(git -C /repo status --short)" ] || echo "WARNING: /repo not clean"
